@@ -184,8 +184,8 @@ func pow(b, e int) int {
 func genDg4(g *vlib.G) {
 	ps := pairs(4, true)
 	if g.Thorough() {
-		blocks(g, 4, true, ps, alphaBFull, 4, 1)
 		blocks(g, 4, true, ps, alphaB, 4, 6)
+		blocks(g, 4, true, ps, alphaBFull, 4, 1)
 		return
 	}
 	blocks(g, 4, true, ps, alphaB, 4, 1)
